@@ -273,10 +273,12 @@ annotate (C10). What is still not executed is listed in
 `coverage/uncovered.txt` (committed; regenerate with the tool): the
 `ReportError` path that talks to a Sentry hub, `SetWarningFn`, marshalling
 failures of a payload, the `%#v` / `GoStringer` branch, the panic for a handler
-error whose details cannot be marshalled, the `redact.SafeMessager` backward
-compatibility branch (tried and dropped: the redact package itself short-cuts
-such values, so none of the formatting properties is stated for them), and a few
-defensive branches. No monitor says anything about those.
+error whose details cannot be marshalled, and a few defensive branches. (The
+`redact.SafeMessager` backward-compatibility branch was first tried with a leaf
+kind and dropped — the redact package itself short-cuts such values when they
+are handed to it directly, so none of the formatting properties is stated for
+them — and is now exercised by the `safemsgwrap` kind, which is never the
+outermost layer.) No monitor says anything about those.
 
 The outcome of the last regression run — every seeded change against the check
 of its own property on the final harness, with the number of violation
